@@ -60,7 +60,10 @@ theorem lastOut_head (hI : Inv W P pb cb s Q) (hi : s.agents[i]? = some a) (hliv
 theorem remove_only (hW : WordSpecs P.C pb cb W) (hI : Inv W P pb cb s Q) {G : Grp} (hL1 : LastOut s Q i a G)
     (hlast : (Q a.lk).getLast? = some G) :
     Inv W P pb cb (setAgent (cacheNode (wr s (.lock a.lk) P.C.kNull) a.tid a.qnode).1 i { a with loc := .done })
-      (setQ Q a.lk []) := by
+      (setQ Q a.lk []) ∧
+    (LiveOwned s Q → LiveOwned
+      (setAgent (cacheNode (wr s (.lock a.lk) P.C.kNull) a.tid a.qnode).1 i { a with loc := .done })
+      (setQ Q a.lk [])) := by
   have hwf := hI.wf a (List.mem_of_getElem? hL1.hi)
   have hL := hI.locks a.lk hwf.2.1
   have hlen : (Q a.lk).length = 1 := by
@@ -73,6 +76,7 @@ theorem remove_only (hW : WordSpecs P.C pb cb W) (hI : Inv W P pb cb s Q) {G : G
     | nil => rfl
     | cons x xs => rw [hq] at hlen; simp at hlen; simp [hlen]
   rw [← htail]
+  refine ⟨?_, fun hlo => lo_remove hI hL1 (.lock a.lk) P.C.kNull hlo⟩
   apply inv_remove hI hL1 (.lock a.lk) P.C.kNull (Or.inl rfl)
   apply lockInv_removed hW hI hL1 (by simp [cacheNode_agents])
   · rw [lockW_setAgent, cacheNode_lockW, lockW_wr_lock s _ _ _ hwf.2.1]
@@ -85,11 +89,15 @@ theorem remove_first (hW : WordSpecs P.C pb cb W) (hI : Inv W P pb cb s Q) {G G1
     (h1 : (Q a.lk)[1]? = some G1) (hl1 : linked s G1 = true) (nw : Word)
     (hnw : nw = W (linkOf s (Q a.lk) 1) false false 0) :
     Inv W P pb cb (setAgent (cacheNode (wr s (.node G1.node) nw) a.tid a.qnode).1 i { a with loc := .done })
-      (setQ Q a.lk (Q a.lk).tail) := by
+      (setQ Q a.lk (Q a.lk).tail) ∧
+    (LiveOwned s Q → LiveOwned
+      (setAgent (cacheNode (wr s (.node G1.node) nw) a.tid a.qnode).1 i { a with loc := .done })
+      (setQ Q a.lk (Q a.lk).tail)) := by
   have hwf := hI.wf a (List.mem_of_getElem? hL1.hi)
   have hL := hI.locks a.lk hwf.2.1
   have hG1m := mem_of_idx h1
   have hG1live := hI.grpLive a.lk G1 hG1m
+  refine ⟨?_, fun hlo => lo_remove hI hL1 (.node G1.node) nw hlo⟩
   apply inv_remove hI hL1 (.node G1.node) nw (Or.inr ⟨G1, hG1m, rfl⟩)
   apply lockInv_removed hW hI hL1 (by simp [cacheNode_agents, wr_node_agents])
   · rw [lockW_setAgent, cacheNode_lockW, lockW_wr_node]
@@ -124,7 +132,10 @@ theorem case_relS_cas_null (hW : WordSpecs P.C pb cb W) (hI : Inv W P pb cb s Q)
     (hloc : a.loc = .rel .S .cas) (hcur : lockW s a.lk = a.cur)
     (hdec : ¬ (((a.cur - P.C.kSLock) &&& (P.C.kSMask ||| P.C.kSIXLock)) ≠ 0)) :
     Inv W P pb cb (setAgent (cacheNode (wr s (.lock a.lk) P.C.kNull) a.tid a.qnode).1 i { a with loc := .done })
-      (setQ Q a.lk []) := by
+      (setQ Q a.lk []) ∧
+    (LiveOwned s Q → LiveOwned
+      (setAgent (cacheNode (wr s (.lock a.lk) P.C.kNull) a.tid a.qnode).1 i { a with loc := .done })
+      (setQ Q a.lk [])) := by
   have hsm : a.loc.sMem = true := by simp [hloc, Loc.sMem]
   obtain ⟨j, G, hj, hn, hmo⟩ := member_group hI hi hsm
   simp only [MemOK, hloc, PhOK] at hmo
@@ -150,7 +161,10 @@ theorem case_rel_cas_null (hW : WordSpecs P.C pb cb W) (hI : Inv W P pb cb s Q) 
     (k : HK) (hloc : a.loc = k.mk .cas) (hcur : lockW s a.lk = a.cur)
     (hdec : ¬ ((a.cur &&& P.C.kSMask) ≠ 0)) :
     Inv W P pb cb (setAgent (cacheNode (wr s (.lock a.lk) P.C.kNull) a.tid a.qnode).1 i { a with loc := .done })
-      (setQ Q a.lk []) := by
+      (setQ Q a.lk []) ∧
+    (LiveOwned s Q → LiveOwned
+      (setAgent (cacheNode (wr s (.lock a.lk) P.C.kNull) a.tid a.qnode).1 i { a with loc := .done })
+      (setQ Q a.lk [])) := by
   have hlive0 : a.loc.headMode.isSome := by rw [hloc, HK.headMode]; rfl
   obtain ⟨j0, G, hj, hh, hn, hho⟩ := head_group (W := W) hI hi hlive0
   rw [headOK_mk k .cas (by simp) _ _ _ _ hloc] at hho
@@ -169,7 +183,10 @@ theorem case_relS_handoff_last (hW : WordSpecs P.C pb cb W) (hI : Inv W P pb cb 
     (hloc : a.loc = .rel .S .handoff)
     (hl : (nodeW s (ptrOf P a.nxt) &&& P.C.kLockMask) = P.C.kSLock) :
     Inv W P pb cb (setAgent (cacheNode (wr s (.node (ptrOf P a.nxt)) (nodeW s (ptrOf P a.nxt) - P.C.kSLock))
-      a.tid a.qnode).1 i { a with loc := .done }) (setQ Q a.lk (Q a.lk).tail) := by
+      a.tid a.qnode).1 i { a with loc := .done }) (setQ Q a.lk (Q a.lk).tail) ∧
+    (LiveOwned s Q → LiveOwned (setAgent (cacheNode (wr s (.node (ptrOf P a.nxt))
+      (nodeW s (ptrOf P a.nxt) - P.C.kSLock)) a.tid a.qnode).1 i { a with loc := .done })
+      (setQ Q a.lk (Q a.lk).tail)) := by
   have hwf := hI.wf a (List.mem_of_getElem? hi)
   have hsm : a.loc.sMem = true := by simp [hloc, Loc.sMem]
   obtain ⟨j, G, hj, hn, hmo⟩ := member_group hI hi hsm
@@ -194,7 +211,10 @@ theorem case_rel_handoff_last (hW : WordSpecs P.C pb cb W) (hI : Inv W P pb cb s
     (k : HK) (hk : k = .relX ∨ k = .relSIX) (hloc : a.loc = k.mk .handoff)
     (hl : (nodeW s (ptrOf P a.nxt) &&& P.C.kSMask) = P.C.kNoLocks) :
     Inv W P pb cb (setAgent (cacheNode (wr s (.node (ptrOf P a.nxt)) (nodeW s (ptrOf P a.nxt) ^^^ k.flag P))
-      a.tid a.qnode).1 i { a with loc := .done }) (setQ Q a.lk (Q a.lk).tail) := by
+      a.tid a.qnode).1 i { a with loc := .done }) (setQ Q a.lk (Q a.lk).tail) ∧
+    (LiveOwned s Q → LiveOwned (setAgent (cacheNode (wr s (.node (ptrOf P a.nxt))
+      (nodeW s (ptrOf P a.nxt) ^^^ k.flag P)) a.tid a.qnode).1 i { a with loc := .done })
+      (setQ Q a.lk (Q a.lk).tail)) := by
   have hwf := hI.wf a (List.mem_of_getElem? hi)
   have hlive0 : a.loc.headMode.isSome := by rw [hloc, HK.headMode]; rfl
   obtain ⟨j0, G, hj, hh, hn, hho⟩ := head_group (W := W) hI hi hlive0
